@@ -97,6 +97,17 @@ pub assume_specification<F: core::str::FromStr>[ str::parse::<F> ](s: &str) -> (
 pub uninterp spec fn trim_spec(s: Seq<char>) -> Seq<char>;
 pub assume_specification[ str::trim ](s: &str) -> (r: &str) ensures r@ == trim_spec(s@);
 }
+pub mod stdcap {
+    use vstd::prelude::*;
+    verus! {
+    // Vec::with_capacity(n) (rule T-ALLOC, for sizes that are neither a literal, a constant nor a length): `capacity overflow` is
+    // excluded when n elements of up to 64 bytes fit in isize::MAX bytes
+    #[verifier::external_body]
+    pub fn vec_with_capacity<T>(n: usize) -> (r: Vec<T>)
+        requires n <= 0x01ff_ffff_ffff_ffff, //@C19.no_allocation_sized_by_an_unbounded_number
+        ensures r@.len() == 0 { Vec::with_capacity(n) }
+    }
+}
 pub mod strext {
     use vstd::prelude::*;
     verus! {
@@ -191,6 +202,11 @@ pub assume_specification<T, F: FnOnce(&T) -> bool> [std::option::Option::<T>::fi
     ensures o matches Some(x) ==> (f.ensures((&x,), true) ==> r == o) && (f.ensures((&x,), false) ==> r is None), o is None ==> r is None, r is Some ==> r == o;
 pub assume_specification<T, U> [std::option::Option::<T>::and] (a: std::option::Option<T>, b: std::option::Option<U>) -> (r: std::option::Option<U>)
     ensures r == (if a is Some { b } else { std::option::Option::<U>::None });
+// Option::get_or_insert_with: the content (put there by F when absent) is handed out; what is written through the reference is what the option holds afterwards
+pub assume_specification<T, F: FnOnce() -> T> [std::option::Option::<T>::get_or_insert_with] (o: &mut std::option::Option<T>, f: F) -> (r: &mut T)
+    requires *old(o) is None ==> f.requires(()),
+    ensures *old(o) matches Some(v) ==> *r == v, *old(o) is None ==> f.ensures((), *r),
+        *final(o) == std::option::Option::<T>::Some(*final(r));
 pub assume_specification<T, U> [std::option::Option::<T>::zip] (a: std::option::Option<T>, b: std::option::Option<U>) -> (r: std::option::Option<(T, U)>)
     ensures r == (match (a, b) { (Some(x), Some(y)) => Some((x, y)), _ => std::option::Option::<(T, U)>::None });
 }
